@@ -7,17 +7,36 @@ From Life Require Import ConnLife.
 From Locks Require Import Discipline.
 From Ring Require LiveSpec ProofsLive.
 
-(* once stop has closed socket and rings, some step is enabled until the teardown is complete, unless the
-   processor is inside a delivery to a still-open connection whose peer has stopped reading *)
-Theorem C16_progress : ConnLife.C16_progress.
+(* in every reachable state: a goroutine that is gone has closed its ring, stop's actions have taken effect *)
+Theorem C16_invariant : forall cap, ConnLife.C16_invariant cap.
+Proof. exact ConnLife.invariant. Qed.
+Print Assumptions C16_invariant.
+
+(* once the socket is dead - cut by the peer or closed by stop, in any state of the goroutines and rings (own
+   outgoing ring full, incoming ring full, processor blocked ...) - some goroutine of the connection can step until
+   the teardown is complete, unless the processor is inside a delivery to a still-open connection whose peer has
+   stopped reading; no step from outside the connection is needed *)
+Theorem C16_progress : forall cap, ConnLife.C16_progress cap.
 Proof. exact ConnLife.progress. Qed.
 Print Assumptions C16_progress.
 
-(* every step decreases the remaining work: the teardown finishes within a bound that depends only on the
-   number of stored subscriptions *)
-Theorem C16_bounded : ConnLife.C16_bounded.
+(* every such step decreases the remaining work: the teardown finishes within a bound that depends only on the
+   packets waiting in the incoming ring and the number of stored subscriptions *)
+Theorem C16_bounded : forall cap, ConnLife.C16_bounded cap.
 Proof. exact ConnLife.bounded. Qed.
 Print Assumptions C16_bounded.
+
+(* read off the source: ReadFrom / WriteTo close their ring on the way out, the processor's exit calls stop *)
+Theorem C16_source_facts : Gen.Tables.readfrom_closes_ring = true /\ Gen.Tables.writeto_closes_ring = true /\ Gen.Tables.processor_exit_calls_stop = true.
+Proof. exact ConnLife.tables_facts. Qed.
+Print Assumptions C16_source_facts.
+
+(* the hypotheses are met by the state the seeded scenario produces: peer gone, processor blocked on the
+   connection's own full outgoing ring, sender in a socket write, receiver waiting for space *)
+Theorem C16_own_ring_full_reachable :
+  ConnLife.reachable 1 (ConnLife.mkSt true false false 1 true ConnLife.RSpace ConnLife.PWriteOwn ConnLife.SWrite ConnLife.CIdle false).
+Proof. exact ConnLife.own_ring_full_reachable. Qed.
+Print Assumptions C16_own_ring_full_reachable.
 
 (* the order of the teardown actions in the current source: socket and rings are closed before the wait for
    the goroutines; unsubscribing, the will and the removal of a clean session come after it *)
